@@ -411,8 +411,7 @@ inline constexpr void Conversion<Unit::Diffusivity, Unit::Diffusivity::SquareMic
 }
 
 template <typename NumericType>
-inline const std::map<Unit::Diffusivity,
-                      std::function<void(NumericType* const, const std::size_t size)>>
+inline const ConversionTable<Unit::Diffusivity, NumericType>
     MapOfConversionsFromStandard<Unit::Diffusivity, NumericType>{
       {Unit::Diffusivity::SquareMetrePerSecond,
        Conversions<Unit::Diffusivity, Unit::Diffusivity::SquareMetrePerSecond>::
@@ -461,8 +460,7 @@ inline const std::map<Unit::Diffusivity,
 };
 
 template <typename NumericType>
-inline const std::map<Unit::Diffusivity,
-                      std::function<void(NumericType* values, const std::size_t size)>>
+inline const ConversionTable<Unit::Diffusivity, NumericType>
     MapOfConversionsToStandard<Unit::Diffusivity, NumericType>{
       {Unit::Diffusivity::SquareMetrePerSecond,
        Conversions<Unit::Diffusivity, Unit::Diffusivity::SquareMetrePerSecond>::
